@@ -134,3 +134,68 @@ func VerifC19ExplicitFalseUnmarshal(mode int, tmpl string) {
 		vrt.Cover("unmarshal-error")
 	}
 }
+
+type zz19Any struct {
+	A any `json:"a"`
+}
+
+// VerifC19NilArshalers: the nil argument class of WithMarshalers / WithUnmarshalers - passed
+// directly, inside JoinOptions, or after a non-nil setter (last wins) - behaves exactly as if
+// no (un)marshalers had been given, for values that go through the untyped (any) paths.
+func VerifC19NilArshalers(unmarshalSide bool) {
+	joined := vrt.Bool("joined")
+	afterNonNil := vrt.Bool("afterNonNil")
+	shape := vrt.Choice("shape", 3)
+	if !unmarshalSide {
+		var opts []Options
+		if afterNonNil {
+			opts = append(opts, WithMarshalers(MarshalFunc(func(bool) ([]byte, error) { return []byte(`"B"`), nil })))
+		}
+		var nilM *Marshalers
+		if joined {
+			opts = append(opts, JoinOptions(Deterministic(false), WithMarshalers(nilM)))
+		} else {
+			opts = append(opts, WithMarshalers(nilM))
+		}
+		var v any
+		switch shape {
+		case 0:
+			v = []any{1.5, "s", nil, true, map[string]any{}}
+		case 1:
+			v = &zz19Any{A: []any{true}}
+		default:
+			v = map[string]any{"k": vrt.Bool("b")}
+		}
+		want, err0 := Marshal(v)
+		got, err1 := Marshal(v, opts...)
+		vrt.Assert("C19/nil-arshalers/marshal-same-success", (err0 == nil) == (err1 == nil))
+		vrt.Assert("C19/nil-arshalers/marshal-same-bytes", err0 != nil || err1 != nil || bytes.Equal(want, got))
+		vrt.Cover("marshal-done")
+		return
+	}
+	var opts []Options
+	if afterNonNil {
+		opts = append(opts, WithUnmarshalers(UnmarshalFunc(func(b []byte, p *bool) error { *p = true; return nil })))
+	}
+	var nilU *Unmarshalers
+	if joined {
+		opts = append(opts, JoinOptions(RejectUnknownMembers(false), WithUnmarshalers(nilU)))
+	} else {
+		opts = append(opts, WithUnmarshalers(nilU))
+	}
+	docs := []string{`[1.5,"s",null,false,{}]`, `{"a":[false]}`, `{"k":false}`}
+	var v0, v1 any
+	var s0, s1 zz19Any
+	var err0, err1 error
+	if shape == 1 {
+		err0 = Unmarshal([]byte(docs[1]), &s0)
+		err1 = Unmarshal([]byte(docs[1]), &s1, opts...)
+		v0, v1 = s0.A, s1.A
+	} else {
+		err0 = Unmarshal([]byte(docs[shape]), &v0)
+		err1 = Unmarshal([]byte(docs[shape]), &v1, opts...)
+	}
+	vrt.Assert("C19/nil-arshalers/unmarshal-same-success", (err0 == nil) == (err1 == nil))
+	vrt.Assert("C19/nil-arshalers/unmarshal-same-value", err0 != nil || err1 != nil || zz04EqualAny(v0, v1))
+	vrt.Cover("unmarshal-done")
+}
